@@ -1,7 +1,7 @@
 (* C15 qdqueue: theorems about the micro-step machine of DqMicro.v (src/ds/qdqueue.c with the advertisement heap,
    last_consumed and last_ad_* heuristics), for EVERY schedule, every number of shepherds, every allsheps / neighbors
    configuration, every program and ARBITRARY initial values of the hint fields.                                *)
-From Coq Require Import List NArith Bool Arith Lia ZifyBool ZifyNat ZifyN Permutation.
+From Coq Require Import List NArith Bool Arith Lia ZifyBool ZifyNat ZifyN Permutation Sorted.
 From QV Require Import CQueues.Dq CQueues.DqProofs CQueues.DqMicro.
 Import ListNotations.
 Local Open Scope N_scope.
@@ -534,3 +534,742 @@ Proof.
   destruct (Nat.eq_dec i (k_me k)) as [->|Hne]; [left; reflexivity|right].
   apply Hcov; [apply Hm, Hk|exact Hi|exact Hne].
 Qed.
+
+(* ------------------------------------------------------------------------------------------------------ *)
+(* trace-level versions: the observation / the take is an earlier step of the same call                    *)
+
+Lemma nth_error_set_nth_other : forall (A : Type) (l : list A) (t u : nat) (x : A),
+  t <> u -> nth_error (set_nth l u x) t = nth_error l t.
+Proof.
+  intros A l. induction l as [|a l IH]; intros t u x Hne; [destruct u; reflexivity|].
+  destruct u as [|u]; destruct t as [|t]; cbn [set_nth nth_error]; try reflexivity; [contradiction|].
+  apply IH. intros E. apply Hne. f_equal. exact E.
+Qed.
+
+Lemma task_of_other : forall s t u s' r, dm_step s u = Some (s', r) -> t <> u -> task_of s' t = task_of s t.
+Proof.
+  intros s t u s' r H Hne. destruct (dm_step_R _ _ _ _ H) as [k [Ek R]].
+  destruct (stepR_effect _ _ _ _ _ R) as [_ [_ [_ [k' [Et _]]]]].
+  unfold task_of. rewrite Et, nth_error_set_nth_other by exact Hne. reflexivity.
+Qed.
+
+Lemma firstn_snoc_cases : forall (A : Type) (l : list A) (u : A) n,
+  firstn n (l ++ [u]) = firstn n l \/ firstn n (l ++ [u]) = l ++ [u].
+Proof.
+  intros A l u n. destruct (Nat.le_gt_cases n (length l)) as [L|L].
+  - left. rewrite firstn_app. replace (n - length l)%nat with O by lia. cbn [firstn]. apply app_nil_r.
+  - right. apply firstn_all2. rewrite app_length. cbn [length]. lia.
+Qed.
+
+(* a property of task t's record that holds at the end of sched was established by a step of t and held ever since *)
+Lemma since_trace : forall (Q : dtask -> Prop) (W : dstate -> Prop) init t,
+  ~ Q (task_of init t) ->
+  (forall s s' r, dm_step s t = Some (s', r) -> Q (task_of s' t) -> Q (task_of s t) \/ W s) ->
+  forall sched, Q (task_of (dm_run init sched) t) ->
+  exists sched1 sched2, sched = sched1 ++ t :: sched2 /\ W (dm_run init sched1) /\
+    forall n, Q (task_of (dm_run init (sched1 ++ t :: firstn n sched2)) t).
+Proof.
+  intros Q W init t H0 Hstep sched. induction sched as [|u sched IH] using rev_ind; intros HQ.
+  - exfalso. apply H0. exact HQ.
+  - assert (Hext : Q (task_of (dm_run init sched) t) ->
+              exists sched1 sched2, sched ++ [u] = sched1 ++ t :: sched2 /\ W (dm_run init sched1) /\
+                forall n, Q (task_of (dm_run init (sched1 ++ t :: firstn n sched2)) t)).
+    { intros HQ0. destruct (IH HQ0) as [s1 [s2 [E [HW Hall]]]]. exists s1, (s2 ++ [u]).
+      split; [rewrite E, <- app_assoc; reflexivity|]. split; [exact HW|]. intros n.
+      destruct (firstn_snoc_cases _ s2 u n) as [-> | ->]; [apply Hall|].
+      replace (s1 ++ t :: s2 ++ [u]) with (sched ++ [u]) by (rewrite E, <- app_assoc; reflexivity). exact HQ. }
+    rewrite dm_run_snoc in HQ. unfold dm_step' in HQ.
+    destruct (dm_step (dm_run init sched) u) as [[s' r]|] eqn:Es; [|apply Hext, HQ].
+    destruct (Nat.eq_dec t u) as [<-|Hne].
+    + destruct (Hstep _ _ _ Es HQ) as [HQ0|HW]; [apply Hext, HQ0|].
+      exists sched, []. split; [reflexivity|]. split; [exact HW|]. intros n. destruct n; cbn [firstn];
+        rewrite dm_run_snoc; unfold dm_step'; rewrite Es; exact HQ.
+    + rewrite (task_of_other _ _ _ _ _ Es Hne) in HQ. apply Hext, HQ.
+Qed.
+
+Lemma task_of_init : forall ns alls nbrs hn progs t,
+  k_pc (task_of (dm_init ns alls nbrs hn progs) t) = PIdle /\ k_seen (task_of (dm_init ns alls nbrs hn progs) t) = [].
+Proof.
+  intros. unfold task_of, dm_init; cbn [dm_tasks]. destruct (nth_error _ t) as [k|] eqn:E; [|split; reflexivity].
+  apply nth_error_In, in_map_iff in E. destruct E as [p [<- _]]. split; reflexivity.
+Qed.
+
+(* task t's step at s is a failed qlfqueue_dequeue on sub-queue i, which is empty at s *)
+Definition observes_empty (t i : nat) (s : dstate) : Prop :=
+  nth i (dm_qs s) [] = [] /\ deq_site s (task_of s t) = Some i /\ dm_qs (dm_step' s t) = dm_qs s.
+
+(* whenever a dequeue returns NULL: for every sub-queue i there is an earlier step of the SAME call (i stays in
+   k_seen from then on, and k_seen is reset when a call starts) at which sub-queue i was empty.  The points are
+   in general different for different i: the sub-queues need not have been empty simultaneously. *)
+Theorem dqm_null_trace : forall ns alls nbrs hn progs sched t s' i,
+  progs_ok ns progs -> alls_cover ns alls ->
+  let init := dm_init ns alls nbrs hn progs in
+  dm_step (dm_run init sched) t = Some (s', Some (DPtr None)) -> (i < ns)%nat ->
+  exists sched1 sched2, sched = sched1 ++ t :: sched2 /\ observes_empty t i (dm_run init sched1) /\
+    forall n, In i (k_seen (task_of (dm_run init (sched1 ++ t :: firstn n sched2)) t)).
+Proof.
+  intros ns alls nbrs hn progs sched t s' i Hok Hcov init H Hi.
+  destruct (dqm_null_means_all_empty_at_some_point ns alls nbrs hn progs sched t s' i Hok Hcov H Hi) as [Hin _].
+  apply (since_trace (fun k => In i (k_seen k)) (observes_empty t i) init t).
+  - unfold init. rewrite (proj2 (task_of_init _ _ _ _ _ _)). intros [].
+  - intros s s1 r Hs HQ. destruct (dqm_seen_was_empty _ _ _ _ Hs) as [E|[[_ E]|[i0 [E [Hnil [Hqs Hd]]]]]].
+    + left. rewrite <- E. exact HQ.
+    + rewrite E in HQ. destruct HQ.
+    + rewrite E in HQ. destruct HQ as [<-|HQ]; [right|left; exact HQ].
+      split; [exact Hnil|]. split; [exact Hd|]. unfold dm_step'. rewrite Hs. exact Hqs.
+  - exact Hin.
+Qed.
+
+(* ------------------------------------------------------------------------------------------------------ *)
+(* 3  the hints are advisory                                                                               *)
+
+Lemma qpop_set_nth : forall qs i x qs',
+  qpop qs i = Some (x, qs') -> exists rest, nth i qs [] = x :: rest /\ qs' = set_nth qs i rest.
+Proof.
+  intros qs. induction qs as [|q qs IH]; intros i x qs' H; [destruct i; discriminate H|].
+  destruct i as [|i]; cbn [qpop nth set_nth] in *.
+  - destruct q as [|y q']; [discriminate H|]. inv H. exists q'. split; reflexivity.
+  - destruct (qpop qs i) as [[y qs'']|] eqn:E; [|discriminate H]. inv H.
+    destruct (IH i x qs'' E) as [rest [Hn ->]]. exists rest. split; [exact Hn|reflexivity].
+Qed.
+
+(* task t's step at s takes x, the HEAD of sub-queue i, by a qlfqueue_dequeue aimed at i *)
+Definition takes_head (t i : nat) (x : N) (s : dstate) : Prop :=
+  exists rest, nth i (dm_qs s) [] = x :: rest /\ deq_site s (task_of s t) = Some i /\
+    dm_qs (dm_step' s t) = set_nth (dm_qs s) i rest /\ d_deq (dm_step' s t) = d_deq s ++ [x].
+
+(* step level: sub-queues and d_deq change only by taking a head; a value is held (pc PDeqStRet) only after taking it *)
+Theorem dqm_step_takes_head : forall s t s' r,
+  dm_step s t = Some (s', r) ->
+  (d_deq s' = d_deq s /\ (dm_qs s' = dm_qs s \/ exists qi v, dm_qs s' = qpush (dm_qs s) qi v) /\
+   (is_stret (k_pc (task_of s' t)) = true -> False)) \/
+  (exists i x, takes_head t i x s /\ k_pc (task_of s' t) = PDeqStRet i x).
+Proof.
+  intros s t s' r H. destruct (dm_step_R _ _ _ _ H) as [k [Ek R]].
+  assert (E0 : task_of s t = k) by (unfold task_of; rewrite Ek; reflexivity).
+  assert (Ek' : forall kk, dm_tasks s' = set_nth (dm_tasks s) t kk -> task_of s' t = kk).
+  { intros kk E. unfold task_of. rewrite E, (nth_error_set_nth_same _ _ _ _ _ Ek). reflexivity. }
+  destruct R as [o rest Hpc Ho|qi v stat p' Hpc Hp Hs|i x qs' Hd Hq|i p' Hd Hq Hp Hs|subs' r Hr|subs' p' Hp Hs Hni Hd Hs0];
+    cbn [upd dm_tasks dm_qs d_deq] in *; rewrite (Ek' _ eq_refl); cbn [tk_goto tk_see tk_fin k_pc].
+  - left. split; [reflexivity|]. split; [left; reflexivity|]. destruct o; intros E; discriminate E.
+  - left. split; [reflexivity|]. split; [right; exists qi, v; reflexivity|]. rewrite Hs. intros E; discriminate E.
+  - right. exists i, x. split; [|reflexivity]. destruct (qpop_set_nth _ _ _ _ Hq) as [rest [Hn ->]].
+    exists rest. rewrite E0. unfold dm_step'. rewrite H. cbn [dm_qs d_deq]. auto.
+  - left. split; [reflexivity|]. split; [left; reflexivity|]. rewrite Hs. intros E; discriminate E.
+  - left. split; [reflexivity|]. split; [left; reflexivity|]. intros E; discriminate E.
+  - left. split; [reflexivity|]. split; [left; reflexivity|]. rewrite Hs. intros E; discriminate E.
+Qed.
+
+(* every non-NULL result was, at the earlier step of the same call that took it, the head of the sub-queue it was
+   taken from; between that step and the return the task only holds it (pc PDeqStRet) *)
+Theorem dqm_result_was_head : forall ns alls nbrs hn progs sched t s' x,
+  let init := dm_init ns alls nbrs hn progs in
+  dm_step (dm_run init sched) t = Some (s', Some (DPtr (Some x))) ->
+  exists i sched1 sched2, sched = sched1 ++ t :: sched2 /\ takes_head t i x (dm_run init sched1) /\
+    forall n, k_pc (task_of (dm_run init (sched1 ++ t :: firstn n sched2)) t) = PDeqStRet i x.
+Proof.
+  intros ns alls nbrs hn progs sched t s' x init H.
+  destruct (dm_step_R _ _ _ _ H) as [k [Ek R]].
+  assert (E0 : task_of (dm_run init sched) t = k) by (unfold task_of; rewrite Ek; reflexivity).
+  inversion R as [| | | |subs' r0 Hr Es Er|]; subst r0.
+  destruct (k_pc k) as [| | | | | | | | | | | |i x0| | | | | | | | | | | | | | | |] eqn:Epc; try (exfalso; exact Hr).
+  cbn [ret_ok] in Hr. subst x0. exists i.
+  apply (since_trace (fun k => k_pc k = PDeqStRet i x) (takes_head t i x) init t).
+  - unfold init. rewrite (proj1 (task_of_init _ _ _ _ _ _)). discriminate.
+  - intros s s1 r Hs HQ. destruct (dqm_step_takes_head _ _ _ _ Hs) as [[_ [_ Hn]]|[i0 [x0 [Ht Hpc]]]].
+    + exfalso. apply Hn. rewrite HQ. reflexivity.
+    + right. rewrite Hpc in HQ. inv HQ. exact Ht.
+  - rewrite E0. exact Epc.
+Qed.
+
+(* the three safety statements for one initial hint state *)
+Definition dqm_safe (ns : nat) (alls nbrs : list (list nat)) (progs : list (nat * list dmop)) (hn : hints)
+  (sched : list nat) : Prop :=
+  let init := dm_init ns alls nbrs hn progs in
+  let s := dm_run init sched in
+  (* 1 *) (Permutation (d_deq s ++ concat (dm_qs s)) (d_enq s) /\
+           (NoDup (prog_vals progs) -> NoDup (d_deq s)) /\
+           (forall k x, In k (dm_tasks s) -> In (Some x) (k_out k) -> In x (d_deq s) /\ In x (d_enq s))) /\
+  (* 2 *) (forall t s' i, dm_step s t = Some (s', Some (DPtr None)) -> (i < ns)%nat ->
+           exists sched1 sched2, sched = sched1 ++ t :: sched2 /\ observes_empty t i (dm_run init sched1) /\
+             forall n, In i (k_seen (task_of (dm_run init (sched1 ++ t :: firstn n sched2)) t))) /\
+  (* 3 *) (forall t s' x, dm_step s t = Some (s', Some (DPtr (Some x))) ->
+           exists i sched1 sched2, sched = sched1 ++ t :: sched2 /\ takes_head t i x (dm_run init sched1) /\
+             forall n, k_pc (task_of (dm_run init (sched1 ++ t :: firstn n sched2)) t) = PDeqStRet i x).
+
+(* nothing is assumed about the hint fields: last_consumed, last_ad_issued, last_ad_consumed, first and every heap
+   element's inheap / generation / prev / next may start with ANY value (indices may even be out of range) *)
+Theorem dqm_safe_any_hints : forall ns alls nbrs progs hn sched,
+  progs_ok ns progs -> alls_cover ns alls -> dqm_safe ns alls nbrs progs hn sched.
+Proof.
+  intros ns alls nbrs progs hn sched Hok Hcov. split; [|split].
+  - apply dqm_conservation, Hok.
+  - intros t s' i H Hi. eapply dqm_null_trace; eassumption.
+  - intros t s' x H. eapply dqm_result_was_head; eassumption.
+Qed.
+
+(* for any two hint states the same safety statements hold: the hints only influence WHICH sub-queue is tried and
+   in which order, never what can be returned *)
+Theorem dqm_hints_advisory : forall ns alls nbrs progs (hn1 hn2 : hints) sched,
+  progs_ok ns progs -> alls_cover ns alls ->
+  dqm_safe ns alls nbrs progs hn1 sched /\ dqm_safe ns alls nbrs progs hn2 sched.
+Proof. intros. split; apply dqm_safe_any_hints; assumption. Qed.
+
+(* ------------------------------------------------------------------------------------------------------ *)
+(* 4  the advertisement heap is a well-formed sorted linked list                                           *)
+
+Lemma nth_set_nth : forall (A : Type) (l : list A) (i j : nat) (x d : A),
+  nth j (set_nth l i x) d = if ((i =? j) && (i <? length l))%nat then x else nth j l d.
+Proof.
+  intros A l. induction l as [|a l IH]; intros i j x d.
+  - destruct i; cbn [set_nth length]; rewrite andb_false_r; reflexivity.
+  - destruct i as [|i]; destruct j as [|j]; cbn [set_nth nth length]; try reflexivity.
+    rewrite IH. reflexivity.
+Qed.
+
+Lemma set_nth_length : forall (A : Type) (l : list A) (i : nat) (x : A), length (set_nth l i x) = length l.
+Proof.
+  intros A l. induction l as [|a l IH]; intros i x; destruct i; cbn [set_nth length]; try reflexivity.
+  f_equal. apply IH.
+Qed.
+
+Lemma hget_upd : forall hp i f j,
+  hget (hp_upd hp i f) j = if ((i =? j) && (i <? length hp))%nat then f (hget hp i) else hget hp j.
+Proof. intros. unfold hget, hp_upd. apply nth_set_nth. Qed.
+
+Lemma upd_len : forall hp i f, length (hp_upd hp i f) = length hp.
+Proof. intros. unfold hp_upd. apply set_nth_length. Qed.
+
+Definition nx (hp : list elem) (m : nat) : option nat := e_next (hget hp m).
+Definition ih (hp : list elem) (m : nat) : bool := e_inheap (hget hp m).
+
+Lemma nx_keep : forall hp i f m, (forall e, e_next (f e) = e_next e) -> nx (hp_upd hp i f) m = nx hp m.
+Proof.
+  intros hp i f m H. unfold nx. rewrite hget_upd. destruct ((i =? m) && _)%nat eqn:E; [|reflexivity].
+  rewrite H. apply andb_true_iff in E. destruct E as [E _]. apply Nat.eqb_eq in E. subst. reflexivity.
+Qed.
+Lemma ih_keep : forall hp i f m, (forall e, e_inheap (f e) = e_inheap e) -> ih (hp_upd hp i f) m = ih hp m.
+Proof.
+  intros hp i f m H. unfold ih. rewrite hget_upd. destruct ((i =? m) && _)%nat eqn:E; [|reflexivity].
+  rewrite H. apply andb_true_iff in E. destruct E as [E _]. apply Nat.eqb_eq in E. subst. reflexivity.
+Qed.
+Lemma nx_set_prev : forall hp i v m, nx (hp_upd hp i (set_prev v)) m = nx hp m.
+Proof. intros. apply nx_keep. reflexivity. Qed.
+Lemma nx_set_inheap : forall hp i v m, nx (hp_upd hp i (set_inheap v)) m = nx hp m.
+Proof. intros. apply nx_keep. reflexivity. Qed.
+Lemma nx_set_gen : forall hp i v m, nx (hp_upd hp i (set_gen v)) m = nx hp m.
+Proof. intros. apply nx_keep. reflexivity. Qed.
+Lemma nx_set_next : forall hp i v m,
+  nx (hp_upd hp i (set_next v)) m = if ((i =? m) && (i <? length hp))%nat then v else nx hp m.
+Proof. intros. unfold nx. rewrite hget_upd. destruct (_ && _)%nat; reflexivity. Qed.
+Lemma ih_set_prev : forall hp i v m, ih (hp_upd hp i (set_prev v)) m = ih hp m.
+Proof. intros. apply ih_keep. reflexivity. Qed.
+Lemma ih_set_next : forall hp i v m, ih (hp_upd hp i (set_next v)) m = ih hp m.
+Proof. intros. apply ih_keep. reflexivity. Qed.
+Lemma ih_set_gen : forall hp i v m, ih (hp_upd hp i (set_gen v)) m = ih hp m.
+Proof. intros. apply ih_keep. reflexivity. Qed.
+Lemma ih_set_inheap : forall hp i v m,
+  ih (hp_upd hp i (set_inheap v)) m = if ((i =? m) && (i <? length hp))%nat then v else ih hp m.
+Proof. intros. unfold ih. rewrite hget_upd. destruct (_ && _)%nat; reflexivity. Qed.
+
+Lemma ih_in_range : forall hp m, ih hp m = true -> (m < length hp)%nat.
+Proof.
+  intros hp m H. destruct (Nat.lt_ge_cases m (length hp)) as [L|L]; [exact L|].
+  unfold ih, hget in H. rewrite nth_overflow in H by exact L. discriminate H.
+Qed.
+
+Inductive is_chain (hp : list elem) : option nat -> list nat -> Prop :=
+| ch_nil : is_chain hp None []
+| ch_cons : forall a l, is_chain hp (nx hp a) l -> is_chain hp (Some a) (a :: l).
+
+Lemma chain_frame : forall hp hp' x l,
+  (forall a, In a l -> nx hp' a = nx hp a) -> is_chain hp x l -> is_chain hp' x l.
+Proof.
+  intros hp hp' x l Hf Hc. induction Hc as [|a l Hc IH]; [constructor|].
+  constructor. rewrite Hf by (left; reflexivity). apply IH. intros b Hb. apply Hf. right; exact Hb.
+Qed.
+
+(* replace the suffix of a chain *)
+Lemma chain_split : forall hp l1 x a l2,
+  is_chain hp x (l1 ++ a :: l2) ->
+  is_chain hp (Some a) (a :: l2) /\
+  forall hp' l2', (forall m, In m l1 -> nx hp' m = nx hp m) -> is_chain hp' (Some a) l2' -> is_chain hp' x (l1 ++ l2').
+Proof.
+  intros hp l1. induction l1 as [|b l1 IH]; intros x a l2 H; cbn [app] in *.
+  - inversion H as [|a0 l0 Hc]; subst. split; [exact H|]. intros hp' l2' _ H'. exact H'.
+  - inversion H as [|a0 l0 Hc]; subst. destruct (IH _ _ _ Hc) as [H1 H2]. split; [exact H1|].
+    intros hp' l2' Hf H'. constructor. rewrite Hf by (left; reflexivity). apply H2; [|exact H'].
+    intros m Hm. apply Hf. right; exact Hm.
+Qed.
+
+Lemma ss_app : forall (l1 l2 : list nat),
+  StronglySorted lt (l1 ++ l2) <->
+  StronglySorted lt l1 /\ StronglySorted lt l2 /\ forall a b, In a l1 -> In b l2 -> (a < b)%nat.
+Proof.
+  induction l1 as [|x l1 IH]; intros l2; cbn [app].
+  - split; [intros H; split; [constructor|split; [exact H|intros a b []]]|intros [_ [H _]]; exact H].
+  - split.
+    + intros H. inversion H as [|x0 l0 Hs Hf]; subst. apply IH in Hs. destruct Hs as [H1 [H2 H3]].
+      rewrite Forall_forall in Hf. split; [|split; [exact H2|]].
+      * constructor; [exact H1|]. apply Forall_forall. intros y Hy. apply Hf, in_or_app. left; exact Hy.
+      * intros a b [<-|Ha] Hb; [apply Hf, in_or_app; right; exact Hb|apply H3; assumption].
+    + intros [H1 [H2 H3]]. inversion H1 as [|x0 l0 Hs Hf]; subst. constructor.
+      * apply IH. split; [exact Hs|split; [exact H2|]]. intros a b Ha Hb. apply H3; [right; exact Ha|exact Hb].
+      * rewrite Forall_forall in *. intros y Hy. apply in_app_or in Hy. destruct Hy as [Hy|Hy]; [apply Hf, Hy|].
+        apply H3; [left; reflexivity|exact Hy].
+Qed.
+
+Lemma ss_cons : forall x (l : list nat),
+  StronglySorted lt (x :: l) <-> StronglySorted lt l /\ forall b, In b l -> (x < b)%nat.
+Proof.
+  intros x l. split.
+  - intros H. inversion H as [|x0 l0 Hs Hf]; subst. rewrite Forall_forall in Hf. split; assumption.
+  - intros [H1 H2]. constructor; [exact H1|]. apply Forall_forall. exact H2.
+Qed.
+
+Definition heap_wf (q : subq) : Prop :=
+  exists l, is_chain (q_heap q) (q_first q) l /\ StronglySorted lt l /\
+            forall m, In m l <-> ih (q_heap q) m = true.
+
+Lemma heap_wf_pop : forall q, heap_wf q -> heap_wf (fst (pop_crit q)).
+Proof.
+  intros q [l [Hc [Hs Hm]]]. unfold pop_crit. destruct (q_first q) as [f|] eqn:Ef; [|cbn [fst]; exists l; rewrite Ef; auto].
+  unfold heap_wf. cbn [fst set_ads q_first q_heap]. inversion Hc as [|a l' Hc']; subst.
+  apply ss_cons in Hs. destruct Hs as [Hs Hlt].
+  exists l'. fold (nx (q_heap q) f). split; [|split; [exact Hs|]].
+  - eapply chain_frame; [|exact Hc']. intros a _. rewrite nx_set_inheap. destruct (nx (q_heap q) f); [apply nx_set_prev|reflexivity].
+  - intros m. rewrite ih_set_inheap.
+    assert (E : ih (match nx (q_heap q) f with Some n => hp_upd (q_heap q) n (set_prev None) | None => q_heap q end) m
+                = ih (q_heap q) m) by (destruct (nx (q_heap q) f); [apply ih_set_prev|reflexivity]).
+    destruct (Nat.eqb_spec f m) as [->|Hne]; cbn [andb].
+    + assert (L : (m < length (q_heap q))%nat) by (apply ih_in_range, Hm; left; reflexivity).
+      replace (length _) with (length (q_heap q)) by (destruct (nx (q_heap q) m); [rewrite upd_len|]; reflexivity).
+      apply Nat.ltb_lt in L. rewrite L. split; [|intros E'; discriminate E'].
+      intros Hin. specialize (Hlt m Hin). lia.
+    + rewrite E, <- Hm. cbn [In]. split; [intros H; right; exact H|intros [H|H]; [contradiction|exact H]].
+Qed.
+
+Lemma scan_down_spec : forall hp j r, scan_down hp j = Some r ->
+  (r <= j)%nat /\ ih hp r = true /\ forall m, (r < m <= j)%nat -> ih hp m = false.
+Proof.
+  intros hp j. induction j as [|j IH]; intros r H; cbn [scan_down] in H.
+  - fold (ih hp 0) in H. destruct (ih hp 0) eqn:E; [|discriminate H]. inv H. split; [lia|]. split; [exact E|]. intros m Hm; lia.
+  - fold (ih hp (S j)) in H. destruct (ih hp (S j)) eqn:E.
+    + inv H. split; [lia|]. split; [exact E|]. intros m Hm; lia.
+    + destruct (IH r H) as [A [B C]]. split; [lia|]. split; [exact B|]. intros m Hm.
+      destruct (Nat.eq_dec m (S j)) as [->|Hne]; [exact E|apply C; lia].
+Qed.
+
+Lemma scan_down_none : forall hp j, scan_down hp j = None -> forall m, (m <= j)%nat -> ih hp m = false.
+Proof.
+  intros hp j. induction j as [|j IH]; intros H m Hm; cbn [scan_down] in H.
+  - fold (ih hp 0) in H. destruct (ih hp 0) eqn:E; [discriminate H|]. replace m with O by lia. exact E.
+  - fold (ih hp (S j)) in H. destruct (ih hp (S j)) eqn:E; [discriminate H|]. destruct (Nat.eq_dec m (S j)) as [->|Hne]; [exact E|apply IH; [exact H|lia]].
+Qed.
+
+Lemma heap_wf_push : forall q i gen, heap_wf q -> (i < length (q_heap q))%nat ->
+  exists q', push_crit q i gen = Some q' /\ heap_wf q' /\ length (q_heap q') = length (q_heap q).
+Proof.
+  intros q i gen [l [Hc [Hs Hm]]] Hi. unfold push_crit. cbv zeta. fold (ih (q_heap q) i).
+  destruct ((e_gen (hget (q_heap q) i) <? gen) || (gen =? 0));
+    [|exists q; split; [reflexivity|split; [exists l; auto|reflexivity]]].
+  set (hp1 := if gen =? 0 then q_heap q else hp_upd (q_heap q) i (set_gen gen)).
+  assert (N1 : forall m, nx hp1 m = nx (q_heap q) m).
+  { intros m. unfold hp1. destruct (gen =? 0); [reflexivity|apply nx_set_gen]. }
+  assert (I1 : forall m, ih hp1 m = ih (q_heap q) m).
+  { intros m. unfold hp1. destruct (gen =? 0); [reflexivity|apply ih_set_gen]. }
+  assert (L1 : length hp1 = length (q_heap q)).
+  { unfold hp1. destruct (gen =? 0); [reflexivity|apply upd_len]. }
+  clearbody hp1.
+  destruct (ih (q_heap q) i) eqn:Ei.
+  { eexists. split; [reflexivity|]. split; [|exact L1]. exists l. cbn [set_ads q_first q_heap].
+    split; [eapply chain_frame; [|exact Hc]; intros; apply N1|]. split; [exact Hs|]. intros m. rewrite I1. apply Hm. }
+  set (hp2 := hp_upd hp1 i (set_inheap true)).
+  assert (Hi1 : (i <? length hp1)%nat = true) by (apply Nat.ltb_lt; lia).
+  assert (N2 : forall m, nx hp2 m = nx (q_heap q) m).
+  { intros m. unfold hp2. rewrite nx_set_inheap. apply N1. }
+  assert (I2 : forall m, ih hp2 m = ((i =? m)%nat || ih (q_heap q) m)).
+  { intros m. unfold hp2. rewrite ih_set_inheap, Hi1, I1, andb_true_r. destruct (i =? m)%nat; reflexivity. }
+  assert (L2 : length hp2 = length (q_heap q)) by (unfold hp2; rewrite upd_len; exact L1).
+  assert (Hi2 : (i <? length hp2)%nat = true) by (apply Nat.ltb_lt; lia).
+  clearbody hp2.
+  assert (Hnotin : ~ In i l) by (intros Hin; apply Hm in Hin; congruence).
+  destruct (q_first q) as [f|] eqn:Ef.
+  - inversion Hc as [|a l' Hc']; subst a l. apply ss_cons in Hs. destruct Hs as [Hs Hlt].
+    destruct (i <? f)%nat eqn:Eif; [|destruct (f <? i)%nat eqn:Efi].
+    + (* before the first *) apply Nat.ltb_lt in Eif.
+      eexists. split; [reflexivity|]. cbn [set_ads q_first q_heap]. split; [|rewrite !upd_len; exact L2].
+      exists (i :: f :: l'). cbn [set_ads q_first q_heap]. split; [|split].
+      * constructor. rewrite !nx_set_prev, nx_set_next, Hi2, Nat.eqb_refl. cbn [andb].
+        eapply chain_frame; [|exact Hc]. intros a Ha. rewrite !nx_set_prev, nx_set_next.
+        destruct (Nat.eqb_spec i a) as [->|Hne]; [contradiction|]. cbn [andb]. apply N2.
+      * apply ss_cons. split; [apply ss_cons; split; assumption|]. intros b [<-|Hb]; [exact Eif|].
+        specialize (Hlt b Hb). lia.
+      * intros m. rewrite !ih_set_prev, ih_set_next, I2. specialize (Hm m). cbn [In] in *.
+        destruct (Nat.eqb_spec i m) as [->|Hne]; cbn [orb]; [tauto|]. rewrite <- Hm. tauto.
+    + (* after the first: scan backwards *) apply Nat.ltb_lt in Efi.
+      assert (Hf : ih (q_heap q) f = true) by (apply Hm; left; reflexivity).
+      destruct (scan_down hp2 (i - 1)) as [j|] eqn:Esc.
+      2:{ exfalso. assert (E := scan_down_none _ _ Esc f ltac:(lia)). rewrite I2, Hf, orb_true_r in E. discriminate E. }
+      destruct (scan_down_spec _ _ _ Esc) as [Hji [Hjin Hgap]].
+      assert (Hne_ji : j <> i) by lia.
+      assert (Hj : ih (q_heap q) j = true).
+      { rewrite I2 in Hjin. destruct (Nat.eqb_spec i j); [lia|exact Hjin]. }
+      assert (Hjl : In j (f :: l')) by (apply Hm, Hj).
+      destruct (in_split _ _ Hjl) as [l1 [l2 El]]. rewrite El in Hc, Hm, Hnotin.
+      assert (Hs0 : StronglySorted lt (l1 ++ j :: l2)) by (rewrite <- El; apply ss_cons; split; assumption).
+      apply ss_app in Hs0. destruct Hs0 as [Hs1 [Hs2 Hcross]]. apply ss_cons in Hs2. destruct Hs2 as [Hs2 Hj2].
+      assert (Hl2 : forall b, In b l2 -> (i < b)%nat).
+      { intros b Hb. assert (Hbi : ih (q_heap q) b = true) by (apply Hm, in_or_app; right; right; exact Hb).
+        assert (b <> i) by (intros ->; apply Hnotin, in_or_app; right; right; exact Hb).
+        specialize (Hj2 b Hb). destruct (Nat.le_gt_cases b (i - 1)) as [L|L]; [|lia].
+        specialize (Hgap b ltac:(lia)). rewrite I2, Hbi, orb_true_r in Hgap. discriminate Hgap. }
+      assert (Hl1 : forall a, In a l1 -> (a < j)%nat) by (intros a Ha; apply Hcross; [exact Ha|left; reflexivity]).
+      assert (Hjlen : (j <? length hp2)%nat = true) by (apply Nat.ltb_lt; rewrite L2; apply ih_in_range, Hj).
+      set (hp5 := hp_upd (hp_upd (hp_upd hp2 i (set_next (e_next (hget hp2 j)))) i (set_prev (Some j))) j (set_next (Some i))).
+      set (hp6 := match e_next (hget hp5 i) with Some n => hp_upd hp5 n (set_prev (Some i)) | None => hp5 end).
+      assert (N6 : forall m, nx hp6 m = if (j =? m)%nat then Some i else if (i =? m)%nat then nx (q_heap q) j else nx (q_heap q) m).
+      { intros m. assert (E : nx hp6 m = nx hp5 m) by (unfold hp6; destruct (e_next (hget hp5 i)); [apply nx_set_prev|reflexivity]).
+        rewrite E. unfold hp5. rewrite nx_set_next, !upd_len, Hjlen, andb_true_r. destruct (j =? m)%nat; [reflexivity|].
+        rewrite nx_set_prev, nx_set_next, Hi2, andb_true_r. fold (nx hp2 j). rewrite !N2. reflexivity. }
+      assert (I6 : forall m, ih hp6 m = ((i =? m)%nat || ih (q_heap q) m)).
+      { intros m. assert (E : ih hp6 m = ih hp5 m) by (unfold hp6; destruct (e_next (hget hp5 i)); [apply ih_set_prev|reflexivity]).
+        rewrite E. unfold hp5. rewrite ih_set_next, ih_set_prev, ih_set_next. apply I2. }
+      assert (L6 : length hp6 = length (q_heap q)).
+      { unfold hp6. destruct (e_next (hget hp5 i)); unfold hp5; rewrite !upd_len; exact L2. }
+      clearbody hp6. clear hp5.
+      eexists. split; [reflexivity|]. cbn [set_ads q_first q_heap]. split; [|exact L6].
+      exists (l1 ++ j :: i :: l2). cbn [set_ads q_first q_heap]. split; [|split].
+      * destruct (chain_split _ _ _ _ _ Hc) as [H1 H2]. apply H2.
+        -- intros m Hm1. rewrite N6. specialize (Hl1 m Hm1).
+           destruct (Nat.eqb_spec j m); [lia|]. destruct (Nat.eqb_spec i m); [lia|reflexivity].
+        -- inversion H1 as [|a0 l0 H1']; subst a0 l0.
+           constructor. rewrite N6, Nat.eqb_refl. constructor. rewrite N6, Nat.eqb_refl.
+           destruct (Nat.eqb_spec j i); [lia|]. eapply chain_frame; [|exact H1']. intros b Hb. rewrite N6.
+           specialize (Hl2 b Hb). destruct (Nat.eqb_spec j b); [lia|]. destruct (Nat.eqb_spec i b); [lia|reflexivity].
+      * apply ss_app. split; [exact Hs1|]. split.
+        -- apply ss_cons. split; [apply ss_cons; split; [exact Hs2|exact Hl2]|].
+           intros b [<-|Hb]; [lia|]. specialize (Hl2 b Hb). lia.
+        -- intros a b Ha [<-|[<-|Hb]]; [apply Hl1, Ha|specialize (Hl1 a Ha); lia|].
+           apply Hcross; [exact Ha|right; exact Hb].
+      * intros m. rewrite I6. specialize (Hm m). rewrite in_app_iff in *. cbn [In] in *.
+        destruct (Nat.eqb_spec i m) as [->|Hne]; cbn [orb]; [tauto|]. rewrite <- Hm. tauto.
+    + (* it would be the first itself: excluded, the first is in the heap *)
+      exfalso. apply Nat.ltb_ge in Eif. apply Nat.ltb_ge in Efi. assert (f = i) by lia. subst f. apply Hnotin. left; reflexivity.
+  - (* empty heap *) inversion Hc; subst l.
+    eexists. split; [reflexivity|]. cbn [set_ads q_first q_heap]. split; [|rewrite !upd_len; exact L2].
+    exists [i]. cbn [set_ads q_first q_heap]. split; [|split].
+    + constructor. rewrite nx_set_next, upd_len, Hi2, Nat.eqb_refl. constructor.
+    + apply ss_cons. split; [constructor|intros b []].
+    + intros m. rewrite ih_set_next, ih_set_prev, I2. specialize (Hm m). cbn [In] in *.
+      destruct (Nat.eqb_spec i m) as [->|Hne]; cbn [orb]; [tauto|]. rewrite <- Hm. tauto.
+Qed.
+
+Lemma heap_wf_same : forall q q', q_heap q' = q_heap q -> q_first q' = q_first q -> heap_wf q -> heap_wf q'.
+Proof. intros q q' Eh Ef [l H]. exists l. rewrite Eh, Ef. exact H. Qed.
+
+Lemma pop_crit_len : forall q, length (q_heap (fst (pop_crit q))) = length (q_heap q).
+Proof.
+  intros q. unfold pop_crit. destruct (q_first q) as [f|]; [|reflexivity]. cbn [fst set_ads q_heap].
+  rewrite upd_len. destruct (e_next _); [apply upd_len|reflexivity].
+Qed.
+
+Lemma find_shep_bound : forall hp shep n i, find_shep hp shep n = Some i -> (n <= i < n + length hp)%nat.
+Proof.
+  induction hp as [|e hp IH]; intros shep n i H; cbn [find_shep length] in *; [discriminate H|].
+  destruct (e_shep e =? shep)%nat; [inv H; lia|]. specialize (IH _ _ _ H). lia.
+Qed.
+
+Definition hlen (s : dstate) (h : nat) : nat := length (q_heap (getq s h)).
+
+(* no task has run the backwards scan of qdqueue_adheap_push below index 0, and the element index a push works on
+   is inside the heap array *)
+Definition pc_ok (hl : nat -> nat) (p : pc) : Prop :=
+  match p with
+  | PCrash (S _) => False
+  | PPushLock h i _ _ | PPushCrit h i _ _ => (i < hl h)%nat
+  | _ => True
+  end.
+
+Definition wf_state (s : dstate) : Prop :=
+  (forall q, In q (dm_subs s) -> heap_wf q) /\ (forall k, In k (dm_tasks s) -> pc_ok (hlen s) (k_pc k)).
+
+Lemma heap_wf_dflt : heap_wf dflt_sub.
+Proof.
+  exists []. split; [constructor|]. split; [constructor|]. intros m. split; [intros []|].
+  unfold ih, hget. cbn [q_heap dflt_sub]. destruct m; intros E; discriminate E.
+Qed.
+
+Lemma getq_wf : forall s h, (forall q, In q (dm_subs s) -> heap_wf q) -> heap_wf (getq s h).
+Proof.
+  intros s h H. unfold getq. destruct (Nat.lt_ge_cases h (length (dm_subs s))) as [L|L].
+  - apply H, nth_In, L.
+  - rewrite nth_overflow by exact L. apply heap_wf_dflt.
+Qed.
+
+Lemma pc_ok_ext : forall hl hl' p, (forall h, hl' h = hl h) -> pc_ok hl p -> pc_ok hl' p.
+Proof. intros hl hl' p H Hp. destruct p; cbn [pc_ok] in *; try exact Hp; rewrite H; exact Hp. Qed.
+
+Lemma pc_ok_enter_push : forall s h shep gen c, pc_ok (hlen s) (enter_push s h shep gen c).
+Proof.
+  intros. unfold enter_push. destruct (find_shep _ _ _) as [i|] eqn:E; cbn [pc_ok]; [|exact I].
+  apply find_shep_bound in E. unfold hlen. lia.
+Qed.
+
+Lemma pc_ok_enq_nbr : forall s qi gen idx, pc_ok (hlen s) (enq_nbr s qi gen idx).
+Proof. intros. unfold enq_nbr. destruct (nth_error _ _); [apply pc_ok_enter_push|exact I]. Qed.
+
+Lemma pc_ok_after_push : forall s c, pc_ok (hlen s) (after_push s c).
+Proof. intros s [qi gen idx|a b]; cbn [after_push]; [apply pc_ok_enq_nbr|exact I]. Qed.
+
+Lemma pc_ok_loop_at : forall s idx, pc_ok (hlen s) (loop_at s idx).
+Proof. intros. unfold loop_at. destruct (_ <? _)%nat; exact I. Qed.
+
+Lemma wf_state_step : forall s t s' r, wf_state s -> dm_step s t = Some (s', r) -> wf_state s'.
+Proof.
+  intros s t s' r [HH HP] H. unfold dm_step in H.
+  destruct (nth_error (dm_tasks s) t) as [k|] eqn:Ek; [|discriminate H].
+  assert (Hk : In k (dm_tasks s)) by (eapply nth_error_In, Ek). assert (HPk := HP k Hk).
+  (* generic re-assembly *)
+  assert (Hmk : forall qs' subs' k' e d,
+            (forall q, In q subs' -> heap_wf q) ->
+            (forall h, length (q_heap (nth h subs' dflt_sub)) = hlen s h) ->
+            pc_ok (hlen s) (k_pc k') ->
+            wf_state (mkDM (dm_S s) (dm_alls s) (dm_nbrs s) qs' subs' (set_nth (dm_tasks s) t k') e d)).
+  { intros qs' subs' k' e d H1 H2 H3. split; [exact H1|]. cbn [dm_tasks]. intros k0 Hin.
+    apply pc_ok_ext with (hl := hlen s); [intros h; unfold hlen at 1, getq; cbn [dm_subs]; apply H2|].
+    destruct (set_nth_In _ _ _ _ _ Hin) as [->|Hin']; [exact H3|apply HP, Hin']. }
+  assert (Hsame : forall qs' k' e d, pc_ok (hlen s) (k_pc k') ->
+            wf_state (mkDM (dm_S s) (dm_alls s) (dm_nbrs s) qs' (dm_subs s) (set_nth (dm_tasks s) t k') e d)).
+  { intros. apply Hmk; [exact HH|reflexivity|assumption]. }
+  assert (Hset : forall i q' k', (heap_wf (getq s i) -> heap_wf q') -> length (q_heap q') = hlen s i ->
+            pc_ok (hlen s) (k_pc k') -> wf_state (upd s (set_nth (dm_subs s) i q') t k')).
+  { intros i q' k' H1 H2 H3. apply Hmk; [| |exact H3].
+    - intros q0 Hin. destruct (set_nth_In _ _ _ _ _ Hin) as [->|Hin']; [apply H1, getq_wf, HH|apply HH, Hin'].
+    - intros h. rewrite nth_set_nth. destruct ((i =? h) && _)%nat eqn:E; [|reflexivity].
+      apply andb_true_iff in E. destruct E as [E _]. apply Nat.eqb_eq in E. subst h. exact H2. }
+  assert (Htry : forall i on_some on_null, try_deq s t k i on_some on_null = Some (s', r) ->
+            (forall x, pc_ok (hlen s) (on_some x)) -> pc_ok (hlen s) on_null -> wf_state s').
+  { intros i on_some on_null Ht H1 H2. unfold try_deq in Ht. destruct (qpop _ _) as [[x qs']|]; invs Ht; apply Hsame.
+    - apply H1.
+    - exact H2. }
+  assert (Hsetter : forall i q' k', q_heap q' = q_heap (getq s i) -> q_first q' = q_first (getq s i) ->
+            pc_ok (hlen s) (k_pc k') -> wf_state (upd s (set_nth (dm_subs s) i q') t k')).
+  { intros i q' k' E1 E2 H3. apply Hset; [apply heap_wf_same; assumption|unfold hlen; rewrite E1; reflexivity|exact H3]. }
+  destruct (k_pc k) eqn:Epc; cbn [pc_ok] in HPk.
+  - destruct (k_ops k) as [|o rest]; invs H. apply Hsame. cbn [k_pc]. destruct o; exact I.
+  - discriminate H.
+  - invs H. apply Hsame. exact I.
+  - invs H. apply Hsame. cbn [tk_goto k_pc]. destruct stat; exact I.
+  - invs H. apply Hsame. exact I.
+  - destruct (_ <=? _); invs H; apply Hsame; exact I.
+  - invs H. apply Hsetter; [reflexivity|reflexivity|apply pc_ok_enq_nbr].
+  - invs H. apply Hsame. exact I.
+  - destruct (q_lock _); invs H. apply Hsetter; [reflexivity|reflexivity|exact HPk].
+  - (* PPushCrit *)
+    destruct (heap_wf_push (getq s h) i gen (getq_wf s h HH) HPk) as [q' [Eq [Hw Hl]]]. rewrite Eq in H. invs H.
+    apply Hset; [intros _; exact Hw|exact Hl|exact I].
+  - invs H. apply Hsetter; [reflexivity|reflexivity|apply pc_ok_after_push].
+  - eapply Htry; [exact H|intros; exact I|exact I].
+  - invs H. apply Hsetter; [reflexivity|reflexivity|exact I].
+  - invs H. apply Hsetter; [reflexivity|reflexivity|exact I].
+  - destruct (q_first _); invs H; apply Hsame; [exact I|apply pc_ok_loop_at].
+  - destruct (q_lock _); invs H. apply Hsetter; [reflexivity|reflexivity|exact I].
+  - (* PPopCrit *)
+    assert (Hw := heap_wf_pop _ (getq_wf s (k_me k) HH)). assert (Hl := pop_crit_len (getq s (k_me k))).
+    destruct (pop_crit (getq s (k_me k))) as [q' [[ash gen]|]]; cbn [fst] in Hw, Hl; invs H;
+      (apply Hset; [intros _; exact Hw|exact Hl|exact I]).
+  - invs H. apply Hsetter; [reflexivity|reflexivity|apply pc_ok_loop_at].
+  - invs H. apply Hsetter; [reflexivity|reflexivity|exact I].
+  - destruct (q_lc _) as [l|]; [destruct (l =? ash)%nat|]; invs H; apply Hsame; try exact I. apply pc_ok_enter_push.
+  - destruct (_ <? _); invs H; apply Hsame; exact I.
+  - invs H. apply Hsetter; [destruct (_ =? _); reflexivity|destruct (_ =? _); reflexivity|destruct (_ <? _); exact I].
+  - eapply Htry; [exact H|intros; exact I|exact I].
+  - invs H. apply Hsetter; [| |exact I]; (destruct (q_lc _) as [l|]; [destruct (l =? lc)%nat|]; reflexivity).
+  - invs H. apply Hsame. exact I.
+  - eapply Htry; [exact H|intros; exact I|]. destruct lc as [l|]; [destruct (l =? _)%nat|]; exact I.
+  - eapply Htry; [exact H|intros; exact I|exact I].
+  - destruct (q_first _); invs H; apply Hsame; [exact I|apply pc_ok_loop_at].
+  - invs H. apply Hsame. exact I.
+Qed.
+
+(* initial hint states whose advertisement heaps are well-formed lists; qdqueue_create's is one *)
+Lemma hget_map_seq : forall (f : nat -> elem) n m, (m < n)%nat -> hget (map f (seq 0 n)) m = f m.
+Proof.
+  intros f n m H. unfold hget. rewrite nth_indep with (d' := f O) by (rewrite map_length, seq_length; exact H).
+  rewrite map_nth, seq_nth by exact H. reflexivity.
+Qed.
+
+Lemma nth_repeat' : forall (A : Type) (a : A) n m, nth m (repeat a n) a = a.
+Proof. intros A a n. induction n as [|n IH]; intros m; destruct m; cbn [repeat nth]; try reflexivity. apply IH. Qed.
+
+Lemma wf_state_create : forall ns alls nbrs progs, wf_state (dm_init ns alls nbrs (hints_create ns) progs).
+Proof.
+  intros ns alls nbrs progs. split.
+  - unfold dm_init; cbn [dm_subs]. intros q Hq. apply in_map_iff in Hq. destruct Hq as [i [<- _]].
+    unfold init_sub, hints_create. rewrite nth_repeat'. cbn [shint_create h_lc h_issued h_consumed h_first h_elems].
+    exists []. cbn [q_first q_heap]. split; [constructor|]. split; [constructor|]. intros m. split; [intros []|].
+    intros E. exfalso. assert (L := ih_in_range _ _ E). rewrite map_length, seq_length in L.
+    unfold ih in E. rewrite hget_map_seq in E by exact L. unfold init_elem in E. rewrite nth_repeat' in E. discriminate E.
+  - unfold dm_init; cbn [dm_tasks]. intros k Hk. apply in_map_iff in Hk. destruct Hk as [p [<- _]]. exact I.
+Qed.
+
+(* the list the heap is, read off the state: follow next from first *)
+Lemma chain_heap_chain : forall hp x l fuel, is_chain hp x l -> (length l < fuel)%nat -> heap_chain fuel hp x = l.
+Proof.
+  intros hp x l fuel H. revert fuel. induction H as [|a l Hc IH]; intros fuel Hf.
+  - destruct fuel; reflexivity.
+  - destruct fuel as [|fuel]; [cbn [length] in Hf; lia|]. cbn [heap_chain]. f_equal. apply IH. cbn [length] in Hf. lia.
+Qed.
+
+Theorem dqm_adheap_wellformed : forall ns alls nbrs progs sched h,
+  let s := dm_run (dm_init ns alls nbrs (hints_create ns) progs) sched in
+  exists l, is_chain (q_heap (getq s h)) (q_first (getq s h)) l /\     (* l = the elements reached from first via next *)
+            StronglySorted lt l /\                                       (* strictly increasing index order *)
+            (forall m, In m l <-> e_inheap (hget (q_heap (getq s h)) m) = true) /\    (* exactly the inheap elements *)
+            heap_chain (S (length (q_heap (getq s h)))) (q_heap (getq s h)) (q_first (getq s h)) = l.
+Proof.
+  intros ns alls nbrs progs sched h s.
+  assert (Hw : wf_state s) by (apply (dm_run_invariant wf_state); [apply wf_state_step|apply wf_state_create]).
+  destruct (getq_wf s h (proj1 Hw)) as [l [Hc [Hs Hm]]]. exists l. split; [exact Hc|]. split; [exact Hs|]. split; [exact Hm|].
+  apply chain_heap_chain; [exact Hc|].
+  assert (Hnd : NoDup l).
+  { clear -Hs. induction Hs as [|a l Hs IH Hf]; constructor; [|exact IH]. intros Hin. rewrite Forall_forall in Hf.
+    specialize (Hf a Hin). lia. }
+  assert (Hincl : incl l (seq 0 (length (q_heap (getq s h))))).
+  { intros m Hin. apply in_seq. apply Hm, ih_in_range in Hin. lia. }
+  apply NoDup_incl_length in Hincl; [|exact Hnd]. rewrite seq_length in Hincl. lia.
+Qed.
+
+(* the `for (j = i - 1;; j--)` loop of qdqueue_adheap_push never runs below index 0: [PCrash 1] is unreachable *)
+Theorem dqm_push_scan_in_bounds : forall ns alls nbrs progs sched k,
+  let s := dm_run (dm_init ns alls nbrs (hints_create ns) progs) sched in
+  In k (dm_tasks s) -> forall n, k_pc k <> PCrash (S n).
+Proof.
+  intros ns alls nbrs progs sched k s Hk n E.
+  assert (Hw : wf_state s) by (apply (dm_run_invariant wf_state); [apply wf_state_step|apply wf_state_create]).
+  apply (proj2 Hw) in Hk. rewrite E in Hk. exact Hk.
+Qed.
+
+(* the same for every initial hint state whose heaps are well-formed lists (not only qdqueue_create's) *)
+Theorem dqm_push_scan_in_bounds_gen : forall init sched k,
+  wf_state init -> In k (dm_tasks (dm_run init sched)) -> forall n, k_pc k <> PCrash (S n).
+Proof.
+  intros init sched k Hw0 Hk n E.
+  assert (Hw : wf_state (dm_run init sched)) by (apply (dm_run_invariant wf_state); [apply wf_state_step|exact Hw0]).
+  apply (proj2 Hw) in Hk. rewrite E in Hk. exact Hk.
+Qed.
+
+(* ------------------------------------------------------------------------------------------------------ *)
+(* 5  examples (non-vacuity)                                                                               *)
+
+Definition ex_a2 : list (list nat) := [[1];[0]]%nat.
+Definition ex_a3 : list (list nat) := [[1;2];[2;0];[0;1]]%nat.
+
+Example ex_cfg_ok : dm_cfg_ok 2 ex_a2 ex_a2 = true /\ dm_cfg_ok 3 ex_a3 ex_a3 = true.
+Proof. vm_compute. split; reflexivity. Qed.
+
+Example ex_alls_cover : alls_cover 2 ex_a2 /\ alls_cover 3 ex_a3.
+Proof. split; eapply dm_cfg_ok_alls_cover; apply ex_cfg_ok. Qed.
+
+(* (a) an advertisement is issued and consumed.  Shepherd 0: task 0 enqueues 5 (queue empty: no ad), then tasks 0
+   and 1 enqueue 6 and 7 on the non-empty queue, both pass `last_ad_issued <= last_ad_consumed` before either
+   increments: generations 1 and 2 are pushed into neighbour 1's heap (element 1 names shepherd 0).  Task 0
+   dequeues 5 from its own queue (last_consumed[0] = &Qs[0]).  Task 2 on shepherd 1 dequeues: own queue empty,
+   pops the ad (shep 0, generation 2), takes the `lc == ad.shep` branch, runs the CAS loop (last_ad_consumed[0]
+   1 -> 2; the loop of the C code always does one more, failing, CAS) and steals 6. *)
+Definition ex_st1 : dstate :=
+  dm_init 2 ex_a2 ex_a2 (hints_create 2) [(0, [DEnq 5; DEnq 6; DDeq]); (0, [DEnq 7]); (1, [DDeq])]%nat.
+Definition ex_sch1 : list nat :=
+  (repeat 0 4 ++ repeat 0 5 ++ repeat 1 5 ++ repeat 0 5 ++ repeat 1 5 ++ repeat 0 3 ++ repeat 2 13)%nat.
+
+Example ex_ad_issued :
+  let s := dm_run ex_st1 (firstn 24 ex_sch1) in
+  dm_heap_chain s 1 = [1%nat] /\ dm_heap_elems s 1 = [(false, 0); (true, 2)] /\
+  dm_last_ad_issued s 0 = 3 /\ dm_last_ad_consumed s 0 = 1.
+Proof. vm_compute. repeat split. Qed.
+
+Example ex_ad_consumed_pcs :
+  map (fun n => dm_pc_of (dm_run ex_st1 (firstn n ex_sch1)) 2) (seq 27 14) =
+  [PIdle; PDeqOwn; PDeqStNull; PPopPre; PPopLock; PPopCrit; PPopUnlock 0 2; PDeqLdLc 0 2; PDeqLdConsumed 0 2;
+   PDeqCas 0 2 1; PDeqCas 0 2 1; PDeqSteal 0; PDeqStRet 0 6; PIdle].
+Proof. vm_compute. reflexivity. Qed.
+
+Example ex_ad_consumed :
+  let s := dm_run ex_st1 ex_sch1 in
+  dm_outs s = [[Some 5]; []; [Some 6]] /\ dm_qs s = [[7]; []] /\ d_enq s = [5; 6; 7] /\ d_deq s = [5; 6] /\
+  dm_last_ad_issued s 0 = 3 /\ dm_last_ad_consumed s 0 = 2 /\ dm_last_consumed s 1 = Some 0%nat /\
+  dm_heap_chain s 1 = [] /\ dm_heap_elems s 1 = [(false, 0); (false, 2)] /\ dm_crashed s = false.
+Proof. vm_compute. repeat split. Qed.
+
+(* (b) `goto checkads` from the final loop: task 1 (shepherd 1) has scanned shepherd 0 (empty) and stands at
+   qdqueue_adheap_empty; meanwhile task 0 enqueues twice on shepherd 0 and advertises to shepherd 1; task 1 sees
+   the non-empty heap, jumps back to checkads, pops the ad (last_consumed[0] is NULL: nothing to do), re-enters the
+   final loop and finds 5. *)
+Definition ex_st2 : dstate := dm_init 2 ex_a2 ex_a2 (hints_create 2) [(0, [DEnq 5; DEnq 6]); (1, [DDeq])]%nat.
+Definition ex_sch2 : list nat := (repeat 1 6 ++ repeat 0 4 ++ repeat 0 10 ++ repeat 1 12)%nat.
+
+Example ex_goto_checkads :
+  map (fun n => dm_pc_of (dm_run ex_st2 (firstn n ex_sch2)) 1) (seq 20 11) =
+  [PDeqEmptyChk 0; PPopPre; PPopLock; PPopCrit; PPopUnlock 0 1; PDeqLdLc 0 1; PPopPre; PDeqRLdLc 0;
+   PDeqRDeq 0 None; PDeqStRet 0 5; PIdle] /\
+  let s := dm_run ex_st2 ex_sch2 in
+  dm_outs s = [[]; [Some 5]] /\ dm_qs s = [[6]; []] /\ map k_seen (dm_tasks s) = [[]; [0; 1]]%nat.
+Proof. vm_compute. repeat split. Qed.
+
+(* (c) a dequeue on three empty sub-queues returns NULL after having seen all of them *)
+Definition ex_st3 : dstate := dm_init 3 ex_a3 ex_a3 (hints_create 3) [(1, [DDeq])]%nat.
+
+Example ex_null_all_seen :
+  let s := dm_run ex_st3 (repeat 0%nat 10) in
+  dm_pc_of s 0 = PDeqRetNull /\ map k_seen (dm_tasks s) = [[0; 2; 1]]%nat /\
+  exists s', dm_step s 0 = Some (s', Some (DPtr None)) /\ dm_outs s' = [[None]].
+Proof. vm_compute. repeat split. eexists. split; reflexivity. Qed.
+
+(* the hypotheses of the theorems are satisfiable by these runs *)
+Example ex_progs_ok : progs_ok 2 [(0, [DEnq 5; DEnq 6; DDeq]); (0, [DEnq 7]); (1, [DDeq])]%nat.
+Proof.
+  intros me p [E|[E|[E|[]]]]; inv E; (split; [lia|]); intros th v Hin; cbn [In] in Hin;
+    repeat (destruct Hin as [Hin|Hin]; [discriminate Hin|]); destruct Hin.
+Qed.
+
+Example ex_safe : dqm_safe 2 ex_a2 ex_a2 [(0, [DEnq 5; DEnq 6; DDeq]); (0, [DEnq 7]); (1, [DDeq])]%nat (hints_create 2) ex_sch1.
+Proof. apply dqm_safe_any_hints; [apply ex_progs_ok|apply ex_alls_cover]. Qed.
+
+(* (d) the schedule-point interface: from the initial state task 2 runs to its first interposable operation *)
+Example ex_run_to_sp :
+  let '(s, k) := dm_run_to_sp 100 ex_st1 2 in k = Some KLfDeq /\ dm_pc_of s 2 = PDeqOwn /\ dm_sp_target s 2 = Some 1%nat.
+Proof. vm_compute. repeat split. Qed.
+
+Example ex_run_to_sp_end :
+  let s0 := dm_run ex_st1 (firstn 38 ex_sch1) in
+  dm_sp_kind (dm_pc_of s0 2) = Some KLfDeq /\ snd (dm_run_to_sp 100 s0 2) = Some (DKEnd (DPtr (Some 6))).
+Proof. vm_compute. repeat split. Qed.
+
+(* (e) [PCrash 1] is not vacuous: with an ILL-FORMED initial hint state (first points at an element whose inheap is 0)
+   the backwards scan of qdqueue_adheap_push does run below index 0.  (Not a defect of the code: qdqueue_create
+   never produces such a state; it shows why dqm_push_scan_in_bounds needs the heap invariant while 1-3 do not.) *)
+Definition ex_bad_hints : hints := [shint_create 2; mkSH None 1 1 (Some 0%nat) (repeat ehint_create 2)].
+
+Example ex_scan_below_zero_with_bad_hints :
+  let s := dm_run (dm_init 2 ex_a2 ex_a2 ex_bad_hints [(0, [DEnq 5; DEnq 6])]%nat) (repeat 0%nat 12) in
+  dm_pc_of s 0 = PCrash 1 /\ dm_crashed s = true /\ d_enq s = [5; 6] /\ dm_qs s = [[5; 6]; []].
+Proof. vm_compute. repeat split. Qed.
+
+(* (f) observation (heuristic only, no safety impact): qthread_incr returns the OLD value, so the first generation
+   a sub-queue advertises is 1 = its initial last_ad_consumed; the consumer's `while (last_ad < ad.generation)` is
+   then false, last_ad_consumed stays 1 while last_ad_issued is 2, and `last_ad_issued <= last_ad_consumed` never
+   holds again: without two overlapping enqueues a sub-queue advertises only once in its life.  Here: after the
+   first ad was consumed, the enqueue of 4 on the non-empty sub-queue 0 does not advertise. *)
+Definition ex_st6 : dstate :=
+  dm_init 2 ex_a2 ex_a2 (hints_create 2) [(0, [DEnq 1; DEnq 2; DDeq; DEnq 3; DEnq 4]); (1, [DDeq; DDeq])]%nat.
+Definition ex_sch6 : list nat :=
+  (repeat 0 4 ++ repeat 0 10 ++ repeat 0 3 ++ repeat 1 11 ++ repeat 0 4 ++ repeat 0 7 ++ repeat 1 9)%nat.
+
+Example ex_ads_only_once_sequentially :
+  map (fun n => dm_pc_of (dm_run ex_st6 (firstn n ex_sch6)) 0) (seq 33 6) =
+  [PEnqEmpty 0 4; PEnqPut 0 4 false; PEnqLdIssued 0; PEnqLdConsumed 0 2; PEnqRet; PIdle] /\
+  let s := dm_run ex_st6 ex_sch6 in
+  dm_outs s = [[Some 1]; [Some 2; Some 3]] /\ dm_qs s = [[4]; []] /\
+  dm_last_ad_issued s 0 = 2 /\ dm_last_ad_consumed s 0 = 1 /\ dm_heap_chain s 1 = [].
+Proof. vm_compute. repeat split. Qed.
